@@ -72,6 +72,7 @@ PLANS = {
         'deadline': {'quick': 420, 'thorough': 2400},
         'jobs': [
             job('cache', 'cache', 'C08', {'quick': 4, 'thorough': 4}, 0, wit=['c08_cache_hit', 'c08_aged_hit_ttl_checked']),
+            job('cache-types', 'cache-types', 'C08', {'quick': 4, 'thorough': 5}, 0, wit=['c08_cache_hit']),
             job('cache-deep', 'cache-deep', 'C08', {'quick': 5, 'thorough': 5}, 0, tiers=('thorough',), wit=['c08_cache_hit', 'c08_aged_hit_ttl_checked']),
         ],
     },
